@@ -78,6 +78,35 @@ pub fn run(outdir: &Path, tier: &str, _seed: u64, shards: usize) {
             plan.push(("response", kind, name, t));
         }
     }
+    // an object that redeclares the fields of its interface with NARROWED types (the interface declares the
+    // fully nullable shape, the object the exact one — legal covariance): selected through the object, the
+    // rule applies to the object's own declaration
+    fn nullable(t: &GType) -> GType {
+        match t {
+            GType::Named(n) => GType::Named(n.clone()),
+            GType::List(u) => GType::List(Box::new(nullable(u))),
+            GType::NonNull(u) => nullable(u),
+        }
+    }
+    let mut wide = vec![];
+    let mut narrow = vec![];
+    let mut narrow_sel = vec![];
+    for (ki, (leaf, kind)) in resp_kinds.iter().enumerate() {
+        if *kind == "object" {
+            continue;
+        }
+        for (i, t) in shapes(leaf, depth.min(3)).into_iter().enumerate() {
+            let name = format!("n{}x{}", ki, i);
+            wide.push(FieldDef::new(&name, nullable(&t)));
+            narrow.push(FieldDef::new(&name, t.clone()));
+            narrow_sel.push(Sel::field(&name));
+            plan.push(("narrowed_response", kind, name, t));
+        }
+    }
+    defs.push(TypeDef::Interface { name: "Wide".into(), fields: wide });
+    defs.push(TypeDef::Object { name: "Narrow".into(), implements: vec!["Wide".into()], fields: narrow });
+    qfields.push(FieldDef::new("narrow", GType::named("Narrow")));
+    sel.push(Sel::obj("narrow", narrow_sel));
     let mut holder = vec![];
     let mut vars = vec![];
     for (ki, (leaf, kind)) in in_kinds.iter().enumerate() {
@@ -121,6 +150,7 @@ pub fn run(outdir: &Path, tier: &str, _seed: u64, shards: usize) {
         for (pos, kind, name, t) in &plan {
             let sname = match *pos {
                 "response" => "ResponseData",
+                "narrowed_response" => "QNarrow",
                 "variable" => "Variables",
                 _ => "Holder",
             };
@@ -156,7 +186,7 @@ pub fn run(outdir: &Path, tier: &str, _seed: u64, shards: usize) {
         outdir,
         shards,
         json!({
-            "rule": format!("every well-formed type expression of list depth <= {} (all placements of !) x 5 kinds of named type x {{response field, variable, input field}} x {{SDL, introspection JSON}}; non-trivial = has a list or a !; distinct by (format, position, kind, type)", depth),
+            "rule": format!("every well-formed type expression of list depth <= {} (all placements of !) x 5 kinds of named type x {{response field, variable, input field}} x {{SDL, introspection JSON}}, plus the fields of an object that narrows its interface's declarations (depth <= 3); non-trivial = has a list or a !; distinct by (format, position, kind, type)", depth),
             "exhaustive": true,
             "distribution": dist,
             "samples": samples,
